@@ -29,7 +29,7 @@ DefCol == <<0, 0>>
 Garbage == [cp |-> -2, comb |-> <<>>, w |-> 1, fg |-> DefCol, bg |-> DefCol, at |-> 0, us |-> 0,
             uc |-> DefCol, link |-> <<>>, acs |-> FALSE, st |-> -1, er |-> FALSE]
 
-NoQuirks == [ffclear |-> FALSE, sgrfont |-> FALSE]
+NoQuirks == [ffclear |-> FALSE, sgrfont |-> FALSE, fontctl |-> {}]   \* fontctl: control bytes that are glyphs in the alternate font
 
 \* cs: "utf8", or "mb": a legacy single- or multi-byte set; sbmap is then the set of <<byte sequence, code point>>
 \* pairs of the characters in use (supplied by the trace's Config from an independent encoder)
@@ -358,7 +358,7 @@ MbStep(t, b) ==
 Step(t, b) ==
     CASE t.lx = "gnd" ->
            IF b = ESC THEN [t EXCEPT !.lx = "esc", !.buf = <<>>]
-           ELSE IF b < 32 THEN DoC0(t, b)
+           ELSE IF b < 32 THEN (IF t.font # 0 /\ b \in t.q.fontctl THEN PrintCp(t, b) ELSE DoC0(t, b))
            ELSE IF b = 127 THEN [t EXCEPT !.bad = @ \cup {"del"}]
            ELSE IF b < 128 THEN PrintCp(t, b)
            ELSE IF t.cs = "utf8" THEN
